@@ -141,6 +141,17 @@ def gsb (w : Wiring) (stored : Option Int) : Int :=
 def P05 (cfg : Cfg) (w : Wiring) (stored0 : Option Int) (lifes : List (List SRound)) (hist : List (Option Int × List Obs)) : Bool :=
   (chkAll cfg w (if w.latest then none else some (gsb w stored0)) lifes hist).isSome
 
+/-- the rounds of a lifetime before its first scripted process death -/
+def alivePrefix (l : List SRound) : List Round := (l.takeWhile (·.2.isNone)).map (·.1)
+
+/-- no further waiting, per lifetime (the C04 predicate `traceOk` on the rounds before the first process death): a range
+    that is deep enough is handed to the first handler in that very round, whatever happened in earlier rounds -/
+def lifePrompt (cfg : Cfg) (start : Option Int) (l : List SRound) (os : List Obs) : Bool :=
+  traceOk cfg start (alivePrefix l) (os.take (alivePrefix l).length)
+
+def histPrompt (cfg : Cfg) (lifes : List (List SRound)) (hist : List (Option Int × List Obs)) : Bool :=
+  lifes.length == hist.length && (lifes.zip hist).all fun (l, h) => lifePrompt cfg h.1 l h.2
+
 /-- handler level: a failed fetch makes `HandleEvents` fail (so the loop retries the range) -/
 def handlerResult (fetchFailed : Bool) : String := if fetchFailed then "err" else "ok"
 
